@@ -10,7 +10,7 @@
    pattern read as an expression under s rebuilds v" is NOT proved for arbitrary
    nesting; it is what the correspondence run checks against the implementation
    on the pattern x value product (matching, near-miss and wrong-kind values). *)
-From Arrai Require Import Base.Val Spec.SetAlg Eval.Interp Proofs.ValOrder Proofs.PatternP Proofs.PatArrP Proofs.PatTupP Proofs.PatSetP.
+From Arrai Require Import Base.Val Spec.SetAlg Eval.Interp Proofs.ValOrder Proofs.PatternP Proofs.PatArrP Proofs.PatTupP Proofs.PatSetP Proofs.PatDictP.
 
 Theorem C09_repeated_names_must_agree :
   forall t s r x a w, env_matched_update s t = Some r -> env_get x s = Some (D a) -> In (x, w) t -> w = D a.
@@ -153,3 +153,14 @@ Theorem C09_set_rest_is_exactly_the_remainder :
   forall ws l x, In x (without_all l ws) <-> In x l /\ ~ In x (map norm ws).
 Proof. exact without_all_spec. Qed.
 Print Assumptions C09_set_rest_is_exactly_the_remainder.
+
+(* dict patterns with literal keys and name / _ / literal items: every key has exactly one entry, its item is
+   bound to that entry's value, and the dict has no entry under a key the pattern does not name *)
+Theorem C09_flat_dict_pattern_binds_entries :
+  forall fuel rho kls v sc,
+    bind_pat (S (S (S fuel))) rho (PDict (flat_entries kls)) (D v) = Ok sc ->
+    exists l es, v = VSet l /\ dict_entries l = Some es /\
+      Forall (fun kl => exists k' x, In (k', x) es /\ veqb (norm (fst kl)) k' = true /\ leaf_ok sc (snd kl) x) kls /\
+      (forall k' x, In (k', x) es -> exists kl, In kl kls /\ veqb (norm (fst kl)) k' = true).
+Proof. exact flat_dict_pattern_sound. Qed.
+Print Assumptions C09_flat_dict_pattern_binds_entries.
